@@ -89,7 +89,17 @@ def check_case(run, ao, c):
             ok = ok and back.shape == data.shape and np.array_equal(back, data)
         if not ok:
             bad.append(("scatter:gather-identity", dict(got=np.asarray(got).tolist())))
-        else:
+        if ok and n > 0:
+            # slopes of other dtypes come back as they went in (complex telemetry, integer counts beyond 2^53)
+            for dt, vals in ((np.complex128, data * (1 + 0.5j)), (np.complex64, (data * (1 - 2j)).astype(np.complex64)),
+                             (np.int64, data.astype(np.int64) + 2 ** 60 + 1), (np.float32, data.astype(np.float32))):
+                g3 = np.asarray(wfslib.make_subaps_2d(vals.copy(), mask.copy()))
+                back3 = g3[:, :, mask == 1] if g3.shape == (frames, 2) + mask.shape else None
+                if back3 is None or back3.shape != vals.shape or not np.array_equal(back3.astype(vals.dtype) if np.iscomplexobj(vals) == np.iscomplexobj(back3) else back3, vals) \
+                        or (np.iscomplexobj(vals) and not np.iscomplexobj(g3)) or (vals.dtype.kind == "i" and not np.array_equal(back3.astype(np.int64), vals)):
+                    bad.append(("scatter:gather-identity:slopes-dtype-" + np.dtype(dt).name, dict(out_dtype=str(g3.dtype))))
+                    break
+        if ok:
             # the mask in another memory layout / dtype is the same mask
             for label, mk in (("fortran-order", np.asfortranarray(mask)), ("transposed-view", np.ascontiguousarray(mask.T).T),
                               ("reversed-view", np.ascontiguousarray(mask[::-1, ::-1])[::-1, ::-1]), ("boolean", mask.astype(bool)), ("int", mask.astype(np.int64))):
